@@ -125,4 +125,27 @@ Proof.
     - refine (pr_nullify_burn (fun s => (synced s, versions s)) eq _ _ _ c cm _ _ _); untouched. }
   inversion E as [[E1 E2]]. rewrite E2 in *. auto.
 Qed.
+
+(* ---- chains ---------------------------------------------------------------------------------- *)
+Lemma replay_cons cm mem b bs r :
+  replay c cm mem (b :: bs) = Done r ->
+  exists s1 m1, step_block c cm mem b = Done (s1, m1) /\ replay c s1 m1 bs = Done r.
+Proof. cbn [replay]. destruct (step_block c cm mem b) as [[s1 m1]| | |]; try discriminate. eauto. Qed.
+
+(* an invariant of every block is an invariant of every chain *)
+Lemma replay_inv (P : db -> Prop) :
+  (forall cm mem b s' mem', P cm -> step_block c cm mem b = Done (s', mem') -> P s') ->
+  forall bs cm mem s m, P cm -> replay c cm mem bs = Done (s, m) -> P s.
+Proof.
+  intros Hstep. induction bs as [|b bs IH]; intros cm mem s m HP H.
+  - inversion H; subst; exact HP.
+  - apply replay_cons in H as (s1 & m1 & H1 & H2). eapply IH; [|exact H2]. eapply Hstep; eauto.
+Qed.
+
+Lemma nonneg_genesis : nonneg genesis.
+Proof. unfold nonneg, genesis, empty_db; cbn. apply nonneg_empty. Qed.
+
+(* C03: in every state reachable by replay no balance is negative *)
+Theorem replay_nonneg bs s m : replay c genesis empty_cache bs = Done (s, m) -> nonneg s.
+Proof. apply (replay_inv nonneg); [intros; eapply step_block_nonneg; eauto|apply nonneg_genesis]. Qed.
 End WithCfg.
